@@ -7,6 +7,7 @@
            or (-1) when the fuel runs out. *)
 From Coq Require Import ZArith List Bool.
 From CSS Require Import Base.Sx Forest.Spec Forest.Model.
+From CSS Require Import Gen.Prelude Gen.ForestCanGiveTerms Gen.ForestComputeShift Gen.ForestPreimageGap.
 Import ListNotations.
 Open Scope Z_scope.
 
@@ -46,6 +47,24 @@ Fixpoint run_obs (fuel : nat) (st : tm) (ops : list op) : list sx :=
       let '(st', b) := is_pumping st c in of_bool b :: run_obs fuel st' t
   end.
 
+(* validation of the translator: the definitions REGENERATED from forest.py
+   evaluated on explicit arguments
+     (-7 0 (shift|() ...))                       _can_give_terms
+     (-7 1 parent|() (child|() ...) (sfz ...))   _compute_shift
+     (-7 2 (count ...) length)                   Function.preimage_gap *)
+Definition run_gen (inp : sx) : sx :=
+  match sx_Z (sx_nth inp 1) with
+  | 0 => of_bool (can_give_terms (map sx_optZ (sx_list (sx_nth inp 2))))
+  | 1 => L (map of_optZ (compute_shift (sx_optZ (sx_nth inp 2))
+                                       (map sx_optZ (sx_list (sx_nth inp 3)))
+                                       (sx_Zs (sx_nth inp 4))))
+  | _ => I (ForestPreimageGap.preimage_gap (sx_Zs (sx_nth inp 2)) (sx_Z (sx_nth inp 3)))
+  end.
+
 Definition run_c03 (inp : sx) : sx :=
+  match sx_nth inp 0 with
+  | I (-7) => run_gen inp
+  | _ =>
   let ops := map dec_op (sx_list inp) in
-  L (run_obs (fuel_for ops) init ops).
+  L (run_obs (fuel_for ops) init ops)
+  end.
